@@ -439,7 +439,9 @@ func genDecoder(rng *hx.Rng) cdc {
 	case 0:
 		return cdc{Kind: "vi", Max: []int{10, 127, 128, 300, 70000}[rng.Intn(5)]}
 	case 1:
-		d := [][]byte{{'\n'}, {'\r', '\n'}, {0}, {'a', 'b', 'a'}, {0xff, 0xfe}}[rng.Intn(5)]
+		// incl. delimiters whose proper prefixes overlap themselves ("aab", "--\n", "abac", "\r\r\n"): a matcher that
+		// falls back too far after a partial match misses the delimiter behind a payload ending in such a prefix
+		d := [][]byte{{'\n'}, {'\r', '\n'}, {0}, {'a', 'b', 'a'}, {0xff, 0xfe}, {'a', 'a', 'b'}, {'-', '-', '\n'}, {'a', 'b', 'a', 'c'}, {'\r', '\r', '\n'}}[rng.Intn(9)]
 		return cdc{Kind: "dl", Max: []int{8, 64, 300, 1024}[rng.Intn(4)], Delim: d, StripD: rng.Bool()}
 	case 2:
 		return cdc{Kind: "fx", Len: []int{1, 2, 7, 16, 255, 1024}[rng.Intn(6)]}
@@ -607,7 +609,27 @@ func main() {
 	for i := 0; i < nbad; i++ {
 		c := genDecoder(rng)
 		var d dcase
-		switch rng.Intn(4) {
+		switch rng.Intn(5) {
+		case 4: // length-field decoders: raw length values around every validity boundary of the configuration
+			c = genLF(rng)
+			cands := []int64{0, 1, 2, int64(c.W) - 1, int64(c.W), int64(c.W) + 1, int64(c.Off), int64(c.Off+c.W) - 1, int64(c.Off + c.W), int64(c.Off+c.W) + 1,
+				int64(-c.Adj) - 1, int64(-c.Adj), int64(-c.Adj) + 1, int64(-c.Adj-c.Off) - 1, int64(-c.Adj - c.Off), int64(c.Strip), int64(c.Strip - c.Adj - c.Off - c.W),
+				int64(c.Max-c.Adj-c.Off-c.W) - 1, int64(c.Max - c.Adj - c.Off - c.W), int64(c.Max-c.Adj-c.Off-c.W) + 1}
+			raw := cands[rng.Intn(len(cands))]
+			if raw < 0 {
+				raw = 0
+			}
+			hdr := make([]byte, c.W)
+			for i := 0; i < c.W; i++ {
+				sh := uint(8 * i)
+				if c.BE {
+					sh = uint(8 * (c.W - 1 - i))
+				}
+				hdr[i] = byte(uint64(raw) >> sh)
+			}
+			w := append(append(rng.Bytes(c.Off), hdr...), rng.Bytes(rng.Intn(40))...)
+			d = dcase{Codec: c, Wire: []piece{{Lit: w}}}
+			meta.Count("malformed", "boundary-length-header")
 		case 0: // cut a valid stream at every kind of point
 			wire, _ := validStream(rng, c, 1+rng.Intn(3))
 			w := pieces(wire)
